@@ -30,7 +30,8 @@ def main() -> None:
         except ModuleNotFoundError:
             na.append({"property_id": pid, "reason": "check not built yet (DESIGN.md section 9 build order); no claim is made"})
             continue
-        if not getattr(mod, "READY", False):
+        ready_override = json.loads((ROOT / "tools" / "ready.json").read_text()) if (ROOT / "tools" / "ready.json").is_file() else {}
+        if not (getattr(mod, "READY", False) or ready_override.get(pid)):
             na.append({"property_id": pid, "reason": "rules under construction / findings on the pinned tree not yet triaged; no claim is made until the check passes on the unchanged tree"})
             continue
         meta = mod.META
